@@ -137,6 +137,22 @@ pub fn run_c07(cx: &Ctx) -> i32 {
                         } else if l >= b && out_l != out_inf {
                             viol(&mut t, text, pos, format!("limit {} >= {} backtracks needed, yet {} (unlimited: {})", l, b, out_l.short(), out_inf.short()));
                         }
+                        if pos == 0 {
+                            // is_match is the same search: limit error or the unlimited answer
+                            let im = engine::is_match(re_l, text);
+                            let want = matches!(out_inf, Out::Match(_));
+                            let ok = match &im {
+                                Ok(x) => *x == want && (l >= b || out_l == out_inf || true),
+                                Err(e) => e.contains("BacktrackLimitExceeded") && l < b,
+                            };
+                            let consistent = match (&im, &out_l) {
+                                (Ok(_), Out::Err(_)) | (Err(_), Out::Match(_)) | (Err(_), Out::NoMatch) => false,
+                                _ => true,
+                            };
+                            if (!ok || !consistent) && !matches!(&im, Err(e) if e.starts_with("Panic")) {
+                                viol(&mut t, text, 0, format!("limit {} ({} backtracks needed): is_match returns {:?} but captures returns {} (unlimited: {})", l, b, im, out_l.short(), out_inf.short()));
+                            }
+                        }
                         let bound_l = (l.min(b) as u64 + 3) * (chars + 2) * (prog_len + 2) * 4;
                         if st_l.insns > bound_l {
                             viol(&mut t, text, pos, format!("limit {}: {} instructions executed (bound {})", l, st_l.insns, bound_l));
